@@ -156,9 +156,13 @@ inline void spit(const std::string& p, const std::string& d) { std::ofstream f(p
 // Cases are indices [0, N). Worker w runs w, w+J, w+2J, ... . Each worker publishes the case it is
 // about to run in shared memory; if it dies (signal / sanitizer abort / watchdog) the parent
 // records a violation for exactly that case via on_crash and restarts the worker after it.
+inline char*& worker_note() { static char* p = nullptr; return p; }
+// run_case may call set_note("...") to describe the exact sub-case it is about to run (crash attribution)
+inline void set_note(const std::string& s) { char* p = worker_note(); if (p) { size_t n = std::min<size_t>(s.size(), 8000); memcpy(p, s.data(), n); p[n] = 0; } }
 struct Pool {
-    struct Slot { volatile uint64_t cur; volatile uint64_t done; volatile uint64_t started; };
+    struct Slot { volatile uint64_t cur; volatile uint64_t done; volatile uint64_t started; char note[8192]; };
     int jobs; double case_limit_s; // 0 = no watchdog
+    std::string last_note;   // note of the crashed worker, valid inside on_crash
     Pool(int j, double limit = 0) : jobs(j), case_limit_s(limit) {}
 
     // run_case(idx, result) ; on_crash(idx, description, result) describes the crashed case
@@ -180,7 +184,7 @@ struct Pool {
             if (p < 0) { perror("fork"); exit(2); }
             if (p == 0) {
                 int fd = open(ef.c_str(), O_WRONLY | O_CREAT | O_TRUNC, 0600); if (fd >= 0) { dup2(fd, 2); close(fd); }
-                Result r;
+                Result r; worker_note() = slots[w].note; slots[w].note[0] = 0;
                 for (uint64_t i = next[w]; i < N; i += J) {
                     if (*stop) { r.deadline_hit = true; break; }
                     slots[w].cur = i; slots[w].started = 1;
@@ -212,6 +216,7 @@ struct Pool {
             if (WIFSIGNALED(st)) desc = "signal " + std::to_string(WTERMSIG(st)) + (WTERMSIG(st) == SIGALRM ? " (watchdog)" : "");
             else desc = "exit " + std::to_string(WEXITSTATUS(st));
             desc += "\n" + err;
+            last_note = std::string(slots[w].note);
             on_crash(idx, desc, total);
             total.count("worker_crashes");
             // cases completed by the dead worker in this generation are lost from its Result; count them
